@@ -4,4 +4,6 @@ func init() { register("C19", runC19) }
 
 func runC19(c *Ctx) {
 	c19Hashes(c)
+	c19Transcripts(c)
+	c19H2C(c)
 }
